@@ -29,13 +29,13 @@ STAGES = {'imf_opts': 'emd.sift.get_next_imf',
 
 
 def run(ctx):
-    rule_config_keys(ctx, 'C18.R1')
-    rule_key_paths(ctx, 'C18.R2')
-    rule_yaml_pairing(ctx, 'C18.R3')
-    rule_export_purity(ctx, 'C18.R4')
-    rule_registry(ctx, 'C18.R5')
-    rule_yaml_safe(ctx, 'C18.R6')
-    rule_list_like_options(ctx, 'C18.R6')
+    ctx.rule(rule_config_keys, 'C18.R1')
+    ctx.rule(rule_key_paths, 'C18.R2')
+    ctx.rule(rule_yaml_pairing, 'C18.R3')
+    ctx.rule(rule_export_purity, 'C18.R4')
+    ctx.rule(rule_registry, 'C18.R5')
+    ctx.rule(rule_yaml_safe, 'C18.R6')
+    ctx.rule(rule_list_like_options, 'C18.R6')
 
 
 # ----------------------------------------------------------------------------------------------
